@@ -11,17 +11,114 @@ LEAVES = {"Bool", "I8", "U8", "I16", "I32", "I64", "I128", "U16", "U32", "U64", 
           "String", "ByteArray", "Unit", "Schema"}
 
 
-def strip(h):
+CTX = {"F": None}      # facts of the tree under analysis (set by the caller): lets constant trees see through local consts and const fns
+
+
+def _local_const(h):
+    """HIR initialiser of a local (associated) constant that a path names, when it is not one of the two trait constants themselves"""
+    F = CTX.get("F")
+    if F is None or h.get("k") != "path":
+        return None
+    rk = h.get("rk", "")
+    nm = h.get("name") or last(h.get("def"))
+    if not (rk.startswith("AssocConst") or rk.startswith("Const")) or nm in ("SCHEMA", "POSTCARD_MAX_SIZE"):
+        return None
+    cands = []
+    for cr in F.crates.values():
+        for c in getattr(cr, "consts", []):
+            if c.get("name") == nm and c.get("hir") and (c.get("def") == h.get("def") or rk.startswith("AssocConst")):
+                cands.append(c)
+    exact = [c for c in cands if c.get("def") == h.get("def")]
+    pick = exact or cands
+    if len(pick) == 1:
+        return pick[0]["hir"]
+    return None
+
+
+def strip(h, depth=0):
     while isinstance(h, dict) and h.get("k") in ("addrof", "cast") or (isinstance(h, dict) and h.get("k") == "block" and not h.get("stmts") and h.get("e")):
         h = h["e"]
+    if isinstance(h, dict) and h.get("k") == "path" and depth < 6:
+        c = _local_const(h)
+        if c is not None:
+            return strip(_subst_self(c, h.get("self_ty")), depth + 1)
     return h
+
+
+def _subst_self(tree, self_ty):
+    """`Self` inside the initialiser of a trait's associated constant is the type the constant was named through"""
+    if not self_ty or self_ty == "Self":
+        return tree
+    if isinstance(tree, dict):
+        return {k: (self_ty if k == "self_ty" and v == "Self" else _subst_self(v, self_ty)) for k, v in tree.items()}
+    if isinstance(tree, list):
+        return [_subst_self(x, self_ty) for x in tree]
+    return tree
+
+
+def _const_fn_call(h):
+    """a call of a local const fn inside a constant tree: its body is evaluated (MIR, path-sensitive evaluator) and read back as a schema
+    term over the argument trees.  Only straight-line constructors are understood; anything else stays unknown"""
+    F = CTX.get("F")
+    f = strip(h["f"])
+    if F is None or f.get("rk") not in ("Fn", "AssocFn"):
+        return None
+    import sym
+    fn = None
+    for cr in F.crates.values():
+        for g in cr.fns:
+            if g.def_ == f.get("def") or g.canon == f.get("canon"):
+                fn = g
+    if fn is None or fn.argc != len(h["args"]):
+        return None
+    args = [schema_term(a) for a in h["args"]]
+    eng = sym.Engine(F, inline=sym.inline_consts, max_visits=2, max_steps=2000)
+    ps = [p for p in eng.run(fn) if p.status == "return"]
+    if len(ps) != 1:
+        return None
+
+    def conv(t, d=0):
+        if not isinstance(t, tuple) or d > 12:
+            return ("?", "term")
+        k = t[0]
+        if k == "param":
+            return args[t[1] - 1]
+        if k in ("ref", "pref"):
+            if k == "pref":
+                return conv(t[1], d + 1)
+            return ("?", "ref")
+        if k == "agg" and t[1] == "adt" and (t[2] or "").endswith("DataModelType"):
+            v = t[3]
+            ops = t[5]
+            if v in LEAVES and not ops:
+                return ("K", v)
+            if v in ("Option", "Seq") and len(ops) == 1:
+                return (v, conv(ops[0], d + 1))
+            if v == "Map" and t[4] and set(t[4]) == {"key", "val"}:
+                fs = dict(zip(t[4], ops))
+                return ("Map", conv(fs["key"], d + 1), conv(fs["val"], d + 1))
+        return ("?", "term %s" % k)
+    r = conv(ps[0].ret)
+    return None if _has_unknown(r) else r
+
+
+def _has_unknown(t):
+    if isinstance(t, tuple):
+        if t and t[0] == "?":
+            return True
+        return any(_has_unknown(x) for x in t)
+    if isinstance(t, list):
+        return any(_has_unknown(x) for x in t)
+    return False
 
 
 def last(seg):
     return (seg or "").split("::")[-1]
 
 
-def schema_term(h):
+def schema_term(h, F=None):
+    if F is not None:
+        CTX["F"] = F
     h = strip(h)
     if not isinstance(h, dict):
         return ("?", "not a tree")
@@ -60,6 +157,9 @@ def schema_term(h):
                         return ("DStruct", [named_field(x) for x in a["es"]])
         if f.get("rk") == "Fn" and last(f.get("def")) == "flatten":
             return ("Flatten", nested_repeat(args[0]))
+        cf = _const_fn_call(h)
+        if cf is not None:
+            return cf
         return ("?", "call %s" % (f.get("def")))
     if k == "struct":
         v = h.get("variant") or last(h.get("def"))
